@@ -16,6 +16,34 @@ static struct {
 } s_slot[MAXSLOT];
 static long s_base_blocks;
 
+#define MAXBUF 16
+#define MAXSEG 64
+static struct {
+    char name[24];
+    bool used;
+    struct aws_byte_buf buf;
+    size_t nseg;
+    size_t off[MAXSEG], len[MAXSEG];
+} s_buf[MAXBUF];
+
+static int s_buf_find(const char *name) {
+    for (int i = 0; i < MAXBUF; ++i) {
+        if (s_buf[i].used && !strcmp(s_buf[i].name, name)) {
+            return i;
+        }
+    }
+    return -1;
+}
+
+static void s_buf_reset(void) {
+    for (int i = 0; i < MAXBUF; ++i) {
+        if (s_buf[i].used) {
+            aws_byte_buf_clean_up(&s_buf[i].buf);
+            s_buf[i].used = false;
+        }
+    }
+}
+
 static int s_find(const char *name) {
     for (int i = 0; i < MAXSLOT; ++i) {
         if (s_slot[i].v && !strcmp(s_slot[i].name, name)) {
@@ -93,6 +121,7 @@ static void s_set(const char *name, struct aws_json_value *v) {
 }
 
 static void s_reset(void) {
+    s_buf_reset();
     for (int i = 0; i < MAXSLOT; ++i) {
         if (s_slot[i].v) {
             aws_json_value_destroy(s_slot[i].v);
@@ -382,6 +411,58 @@ int main(void) {
             }
         } else if (!strcmp(t[0], "destroy") && n == 2 && s_get(t[1])) {
             s_del(t[1], true);
+        } else if (!strcmp(t[0], "buf") && n == 4 && !strchr(t[1], '/') && strlen(t[1]) < sizeof(s_buf[0].name)) {
+            int i = s_buf_find(t[1]);
+            if (i >= 0) {
+                aws_byte_buf_clean_up(&s_buf[i].buf);
+            } else {
+                for (i = 0; i < MAXBUF && s_buf[i].used; ++i) {
+                }
+                HC_CHECK(i < MAXBUF);
+            }
+            strcpy(s_buf[i].name, t[1]);
+            s_buf[i].used = true;
+            s_buf[i].nseg = 0;
+            HC_CHECK(aws_byte_buf_init(&s_buf[i].buf, al, hc_parse_size(t[2])) == AWS_OP_SUCCESS);
+            struct aws_byte_cursor c = s_cur(t[3], &own);
+            HC_CHECK(aws_byte_buf_append_dynamic(&s_buf[i].buf, &c) == AWS_OP_SUCCESS);
+        } else if (!strcmp(t[0], "bufappend") && n == 3 && s_buf_find(t[1]) >= 0) {
+            struct aws_byte_cursor c = s_cur(t[2], &own);
+            HC_CHECK(aws_byte_buf_append_dynamic(&s_buf[s_buf_find(t[1])].buf, &c) == AWS_OP_SUCCESS);
+        } else if (!strcmp(t[0], "printinto") && n == 4 && s_buf_find(t[1]) >= 0 && s_ref(t[2]) && s_fmt(t[3], &(bool){0})) {
+            /* serialise into a buffer that already holds content (the API appends) */
+            int i = s_buf_find(t[1]);
+            bool fmt = false;
+            s_fmt(t[3], &fmt);
+            size_t before = s_buf[i].buf.len;
+            int rc = fmt ? aws_byte_buf_append_json_string_formatted(s_ref(t[2]), &s_buf[i].buf)
+                         : aws_byte_buf_append_json_string(s_ref(t[2]), &s_buf[i].buf);
+            HC_CHECK(rc == AWS_OP_SUCCESS);
+            HC_CHECK(s_buf[i].nseg < MAXSEG);
+            s_buf[i].off[s_buf[i].nseg] = before;
+            s_buf[i].len[s_buf[i].nseg++] = s_buf[i].buf.len - before;
+            printf("P appended %zu %zu\n", before, s_buf[i].buf.len);
+        } else if (!strcmp(t[0], "bufdump") && n == 2 && s_buf_find(t[1]) >= 0) {
+            int i = s_buf_find(t[1]);
+            printf("P buf ");
+            hc_put_hex(s_buf[i].buf.buffer, s_buf[i].buf.len);
+            printf("\n");
+        } else if (!strcmp(t[0], "parseseg") && n == 4 && s_buf_find(t[1]) >= 0 && s_plain(t[3]) &&
+                   (size_t)atol(t[2]) < s_buf[s_buf_find(t[1])].nseg && t[2][0] >= '0' && t[2][0] <= '9') {
+            int i = s_buf_find(t[1]);
+            size_t k = (size_t)atol(t[2]);
+            /* exact-size copy of the document: reading past it is an ASan error */
+            uint8_t *copy = malloc(s_buf[i].len[k] ? s_buf[i].len[k] : 1);
+            memcpy(copy, s_buf[i].buf.buffer + s_buf[i].off[k], s_buf[i].len[k]);
+            struct aws_json_value *r = aws_json_value_new_from_string(al, aws_byte_cursor_from_array(copy, s_buf[i].len[k]));
+            free(copy);
+            if (r) {
+                s_set(t[3], r);
+                printf("P parseseg OK\n");
+            } else {
+                s_del(t[3], true);
+                printf("P parseseg NULL\n");
+            }
         } else if (!strcmp(t[0], "end") && n == 1) {
             s_reset();
             printf("P balance %ld\n", hc_live_blocks() - s_base_blocks);
